@@ -150,7 +150,15 @@ def run(ctx):
                           signature="C06:model-differs", found_input=False)
     # ---- corr:prefix : every proper prefix of schemaless encodings raises (theorem C06_schemaless_prefix)
     npref = 0
-    for c in CC.gen_cases(ctx, 60 if quick else 1500, hints=False):
+    import fastavro
+    tails = []
+    for raw, datum in CC.tail_cases():
+        c = CC.Case()
+        c.raw, c.named = raw, {}
+        c.parsed = fastavro.parse_schema(json.loads(json.dumps(raw)), c.named)
+        c.datum = datum
+        tails.append(c)
+    for c in tails + CC.gen_cases(ctx, 60 if quick else 1500, hints=False):
         w = CC.impl_write(c.parsed, c.datum)
         if w[0] != "ok" or len(w[1]) > 300:
             continue
@@ -161,6 +169,17 @@ def run(ctx):
             if r[0] == "ok":
                 ctx.violation("corr:prefix", dict(schema=c.raw, bytes=w[1].hex(), cut=k), impl=repr(r[1])[:300], model="raises",
                               signature="C06:prefix:returns-value-on-truncated-input", found_input=True)
+            # the same prefix decoded with a reader schema that drops the (trailing) value: it is skipped, and must raise as well
+            w2 = {"type": "record", "name": "CutT", "fields": [{"name": "b", "type": "long"}, {"name": "a", "type": c.raw}]}
+            r2 = {"type": "record", "name": "CutT", "fields": [{"name": "b", "type": "long"}]}
+            try:
+                rs = CC.impl_read(w2, b"\x0a" + w[1][:k], r2)
+            except Exception as e:
+                rs = ("raised", type(e).__name__, None)
+            ctx.count("corr:prefix-skipped", None, nontrivial=False)
+            if rs[0] == "ok":
+                ctx.violation("corr:prefix-skipped", dict(writer_schema=w2, reader_schema=r2, bytes=(b"\x0a" + w[1]).hex(), cut=k + 1), impl=repr(rs[1])[:300],
+                              model="raises", signature="C06:prefix:skipped-value:returns-value-on-truncated-input", found_input=True)
     ctx.notes["schemaless_prefixes_checked"] = npref
     ctx.notes["files"] = len(cases)
     ctx.notes["codec_histogram"] = {k: sum(1 for c in cases if c["codec"] == k) for k in K.CODECS}
@@ -170,6 +189,11 @@ def run(ctx):
 
 def replay(ctx, rep):
     c = rep["case"]
+    if "bytes" in c:            # schemaless prefix families
+        p = bytes.fromhex(c["bytes"])[:c["cut"]]
+        r = CC.impl_read(c["writer_schema"], p, c["reader_schema"]) if "writer_schema" in c else CC.impl_read(c["schema"], p)
+        print("prefix of", c["cut"], "bytes ->", r[:2])
+        return r[0] != "ok"
     data = bytes.fromhex(c["file"])
     if "cut" in c:
         cut = data[:c["cut"]]
